@@ -287,11 +287,15 @@ v2::track_data_blob gen_track_data(Rng& r, int size, bool nf)
 
 std::optional<std::string> gen_col_string(Rng& r, const char* tag, uint64_t u)
 {
-    switch (r.below(6))
+    switch (r.below(9))
     {
         case 0: return std::nullopt;
         case 1: return std::string{};
         case 2: return gen_utf8(r, 3) + tag;
+        case 6:  // arbitrary strings: embedded NUL, bytes that are not UTF-8, long
+            return std::string(tag) + std::string("\0mid\0", 5) + std::to_string(u);
+        case 7: return std::string(tag) + "\xff\xfe\xc3(" + std::to_string(u) + ")";
+        case 8: return std::string(tag) + "-" + std::to_string(u) + "-" + gen_bytes(r, r.chance(1, 4) ? 70000 : 300, true);
         default: return std::string(tag) + "-" + std::to_string(u) + "-" + gen_bytes(r, 1 + r.below(6), true);
     }
 }
